@@ -19,7 +19,7 @@ META = {
                    'flushing, worker hangs, worker answers at timeout + 1 s +- epsilon, slow), mode, recycle rate 1-5, timeout 1-5 s, keep-results, '
                    'queue delay, slow worker start, an idle worker killed from outside, primitive- and line-level pre-emption.  Each Comparison is '
                    'checked for position, label, attached replay, expected / actual, message and verdict against a per-behaviour model; the same '
-                   'script in in-process mode must give the same verdicts.'),
+                   'script in in-process mode must give the same verdicts. Also: replays that start a helper process of their own, replays that miss a key after sending an output (every output sent takes part in the comparison).'),
     'level_note': ('Trusted: fake multiprocessing (simkit/fake_mp.py: reader lock orphaned by SIGKILL is modelled, torn pipe writes and an orphaned writer '
                    'lock are not), scheduler, the per-behaviour verdict table. A late answer may legally be Equal or a timeout failure.'),
     'rule': ('evaluation = one comparison run (dedicated mode additionally re-run in in-process mode); non-trivial = at least one faulty behaviour or an '
